@@ -21,7 +21,7 @@ namespace World
 
 variable {D : SlabID → DigestFn 4} {rank : SlabID → Nat}
 
-theorem sameData_isArr {c c' : Cont} (h : Cont.SameData c c') : c'.isArr = c.isArr := by
+theorem sameData_isArr_heap {c c' : Cont} (h : Cont.SameData c c') : c'.isArr = c.isArr := by
   cases c <;> cases c' <;> simp_all [Cont.SameData, Cont.isArr]
 
 /-! ### pre- and postconditions -/
@@ -178,7 +178,7 @@ theorem storableOf_pre {w0 w : World} {ctr0 : Nat} {p : SlabID} {lim : Nat} {v :
       by_cases hzv : z = vid
       · subst hzv
         rw [hc1] at hz; cases hz
-        exact ⟨c, hc, by simp only [Cont.pays, hsd.storedElems], sameData_isArr hsd⟩
+        exact ⟨c, hc, by simp only [Cont.pays, hsd.storedElems], sameData_isArr_heap hsd⟩
       · rw [hco z hzv] at hz; exact ⟨cz, hz, rfl, rfl⟩
     have hsome : ∀ z, (w1.cont? z).isSome = (w.cont? z).isSome := by
       intro z
